@@ -50,7 +50,11 @@ func (e *Engine) resolveCall(g *Goroutine, fr *Frame, cc *ssa.CallCommon) (*Clos
 		cl = c
 	}
 	for _, a := range cc.Args {
-		args = append(args, e.get(fr, a))
+		v := e.get(fr, a)
+		if sp, ok := v.(SymPtr); ok {
+			v = e.asPtr(sp)
+		}
+		args = append(args, v)
 	}
 	return cl, args
 }
@@ -237,6 +241,35 @@ func (e *Engine) builtin(g *Goroutine, name string, args []Value, call *ssa.Call
 			acc = e.tb.Ite(lt, b, acc)
 		}
 		return acc, true
+	case "String": // unsafe.String(ptr *byte, len)
+		p := e.asPtr(args[0])
+		n := e.tb.Resize(args[1].(*term.T), 64, true)
+		if p.Obj == nil {
+			return e.emptyString(), true
+		}
+		return String{Obj: p.Obj, Base: p.Off, Off: e.c64(0), Len: n}, true
+	case "StringData": // unsafe.StringData(s) *byte
+		s := args[0].(String)
+		if s.Obj == nil {
+			return Ptr{}, true
+		}
+		off := int(e.Concretize(s.Off, "string offset"))
+		return Ptr{Obj: s.Obj, Off: s.Base + off}, true
+	case "SliceData": // unsafe.SliceData(s) *T
+		s := args[0].(Slice)
+		if s.Obj == nil {
+			return Ptr{}, true
+		}
+		off := int(e.Concretize(s.Off, "slice offset"))
+		stride := e.sizeOf(call.Call.Args[0].Type().Underlying().(*types.Slice).Elem())
+		return Ptr{Obj: s.Obj, Off: s.Base + off*stride}, true
+	case "Slice": // unsafe.Slice(ptr *T, len) []T
+		p := e.asPtr(args[0])
+		n := e.tb.Resize(args[1].(*term.T), 64, true)
+		if p.Obj == nil {
+			return Slice{Off: e.c64(0), Len: e.c64(0), Cap: e.c64(0)}, true
+		}
+		return Slice{Obj: p.Obj, Base: p.Off, Off: e.c64(0), Len: n, Cap: n}, true
 	case "clear":
 		switch x := args[0].(type) {
 		case *MapObj:
@@ -294,4 +327,4 @@ func (e *Engine) intrinsicFor(fn *ssa.Function) (string, bool) {
 }
 
 var vapiPrims = map[string]bool{"U64": true, "Assume": true, "Check": true, "Fail": true, "Reach": true, "Choice": true,
-	"Setting": true, "Concrete": true, "Engine": true, "Note": true, "Advance": true, "NowNs": true}
+	"Setting": true, "Concrete": true, "Engine": true, "Note": true, "Advance": true, "NowNs": true, "And": true, "Or": true}
